@@ -215,7 +215,7 @@ def plan(tier):
     C = lambda k: E("my-el", True, k)                  # noqa: E731
     BA = lambda k: E("div", True, k, ATTRSETS[2])      # noqa: E731
     IA = lambda k: E("a", False, k, [["href", "?a=1&b=2"], ["hidden", True]])   # noqa: E731
-    L_full = [T("a"), T("<&>\"'"), ["N", 7], ["N", 2.5], T(" s "), T("")]
+    L_full = [T("a"), T("<&>\"'"), ["N", 7], ["N", 2.5], T(" s "), T(""), T("l1\nl2 \n l3")]
     L_red = [T("a"), T("<&>\"'"), ["N", 7]]
     t1 = trees(Const(L_full), [B, I_, Vb, Vi, C, BA, IA], 1, 3 if tier == "quick" else 4)
     out.append(dict(kind="space", name="wide-shallow", space=only_elements(t1), fn=fn,
